@@ -8,7 +8,11 @@
   (format_parse_syntax_partial2, format_idempotent_partial2; the `_partial` versions are the special case
   without end-of-line comments); clause 3 is proved under the same condition, `// indirect` markers included
   (format_preserves_directives_partial2 and its go.work twin; nil fixer or idempotent non-empty fixer, no
-  retract with a fixer); the idempotence clause is FALSE in general
+  retract with a fixer); `EolCount` holds for every accepted input in which no token spans two source lines
+  (eolCount_of_single_line_tokens; `NoMultiLineToken x`, a decidable condition on the input bytes, implied by
+  "no backslash directly followed by a newline"), which gives the three clauses under that SOURCE condition
+  (format_parse_syntax_src, format_idempotent_src, format_preserves_directives_src and its go.work twin);
+  the idempotence clause is FALSE in general
   (C02_violated_format_not_idempotent, eol_single_comment_not_sufficient).  What remains is listed in
   lean/PENDING.md.
 -/
@@ -19,6 +23,8 @@ import ModVerif.Proofs.ModfileFmtDir6
 import ModVerif.Proofs.ModfileFmtWork4
 import ModVerif.Proofs.ModfileFmtQuoteUnquote
 import ModVerif.Proofs.ModfileEolWork
+import ModVerif.Proofs.ModfileSrcDir
+import ModVerif.Proofs.ModfileSrcBytes
 namespace ModVerif.Props.C02
 open ModVerif ModVerif.Modfile
 
@@ -625,5 +631,130 @@ example :
     (match parseWork (B "go.work") x none with
      | .ok f => Proofs.ModfileFmtWork.workWellFormedB f && Proofs.ModfileEol.eolCountB f.syn
      | .error _ => false) = true := by decide +kernel
+
+/-! ### The three clauses under a condition on the SOURCE text: no token spans two source lines
+
+  Helper files `Proofs/ModfileSrc*.lean`.  `NoMultiLineToken x`: every token the lexer of read.go delivers on
+  `x`, other than the newline token itself, has no newline byte in its text (`tokensOf x` is the token stream:
+  `readToken` iterated from `newInput x` up to the end-of-input token or the first lexical error).  Only a
+  double-quoted string with a backslash-newline inside can violate it — the input shape of the known finding
+  `C02_violated_format_not_idempotent`.  The condition is decidable, and implied by the byte-level condition
+  `NoBackslashNewline x` (`x` does not contain the two bytes `\` `⏎` in sequence).
+
+  `eolCount_of_single_line_tokens`: under it the tree condition `EolCount` of the `_partial2` theorems holds for
+  every accepted input.  Proof: two passes over the five parser loops for the lexer states the parser reaches
+  (`Reach`).  (1) `Proofs.ModfileSrc.parseFile_oneLine`: every line starts and ends on the same source line (a
+  line token without newline ends on the line on which it starts, and only blanks separate it from the next
+  token).  (2) `Proofs.ModfileSrc.parseFile_own`: the pass tracks `commentsRev` (it grows by the record of the
+  pending token iff that token is an end-of-line comment token) and byte bounds; an end-of-line comment token is
+  never the first token of a source line, so it directly follows the last token of exactly one line / `(` / `)`,
+  whose end is the largest node end ≤ the comment's start and which is a one-line node by (1); the backwards
+  post-order walk of `assignComments` therefore gives it to that node and to no other
+  (`Proofs.ModfileEol.assignSuffix_take` / `assignSuffix_none` through `Slot` / `StmtOwn`). -/
+
+open Proofs.ModfileSrc Proofs.ModfileEol in
+/-- ★ `eolCount_of_single_line_tokens`: for every accepted input in which no token spans two source lines, the
+    parsed tree satisfies the counting condition `EolCount` — no line, `(` or `)` carries more than one
+    end-of-line comment (a block and its `)` share one slot), a comment block carries none, none is left over
+    for the file header. -/
+theorem eolCount_of_single_line_tokens {name x : Bytes} {t : FileSyntax} (h : parse name x = .ok t)
+    (hN : NoMultiLineToken x) : EolCount t :=
+  Proofs.ModfileSrc.eolCount_of_single_line_tokens h hN
+
+open Proofs.ModfileSrc in
+/-- a byte-level sufficient condition: an input that nowhere contains a backslash immediately followed by a
+    newline has no token that spans two source lines (a newline byte inside a token other than the newline
+    token can only be the escaped rune after a backslash in a double-quoted string) -/
+theorem noMultiLineToken_of_noBackslashNewline {x : Bytes} (h : NoBackslashNewline x) : NoMultiLineToken x :=
+  Proofs.ModfileSrc.noMultiLineToken_of_noBackslashNewline h
+
+open Proofs.ModfileSrc Proofs.ModfileEol Proofs.ModfileFmtTree in
+/-- ★ `format_parse_syntax_src` — `format_parse_syntax` for EVERY accepted input in which no token spans two
+    source lines (`NoMultiLineToken x`, a decidable condition on the input bytes; end-of-line comments, `// indirect`
+    markers, comment blocks, blank lines, blocks, CRLF all allowed): the formatted output parses again, and the
+    new tree is the old one in normal form — positions and line identities erased, every comment text replaced
+    by its `TrimSpace`, the comment of a one-line block `x ( ) // c` moved from the block to its `)` — i.e. same
+    statements, same tokens, same comment texts in the same order (`format_parse_syntax_reading`).  Without the
+    hypothesis the statement is false (`C02_violated_format_not_idempotent`). -/
+theorem format_parse_syntax_src (name x : Bytes) (t : FileSyntax) (h : parse name x = .ok t)
+    (hN : NoMultiLineToken x) :
+    ∃ t', parse name (format t) = .ok t' ∧ eraseFile t' = normFileE t ∧ EolCount t' :=
+  Proofs.ModfileSrc.format_parse_syntax_src name x t h hN
+
+open Proofs.ModfileSrc in
+/-- ★ `format_idempotent_src` — `format_idempotent` for EVERY accepted input in which no token spans two source
+    lines: formatting the re-parsed formatted output gives the same bytes.  The two inputs on which the clause
+    fails (`C02_violated_format_not_idempotent`, `eol_single_comment_not_sufficient`) both contain a quoted
+    string with a backslash-newline, see the examples below. -/
+theorem format_idempotent_src (name x : Bytes) (t t' : FileSyntax) (h : parse name x = .ok t)
+    (hN : NoMultiLineToken x) (h' : parse name (format t) = .ok t') : format t' = format t :=
+  Proofs.ModfileSrc.format_idempotent_src name x t t' h hN h'
+
+open Proofs.ModfileFmtDir Proofs.ModfileSrc in
+/-- ★ `format_preserves_directives_src` (strict go.mod) — clause 3 for every input in which no token spans two
+    source lines: if the strict parser accepts `x` as a well-formed file `f`, it accepts `Format(f.Syntax)`, and
+    the directive values — module path, go, toolchain, godebug, require WITH THE INDIRECT FLAG, exclude, replace,
+    retract intervals, tool — are identical; fixer restrictions as in `format_preserves_directives_partial2`. -/
+theorem format_preserves_directives_src (name x : Bytes) (fix : Option Fixer) (f : Modfile.File)
+    (h : parseToFile name x fix true = .ok f) (hN : NoMultiLineToken x) (hwf : WellFormed f)
+    (hfix : FixOK fix) (hne : FixNE fix) (hret : fix ≠ none → f.retract = []) :
+    ∃ f', parseToFile name (format f.syn) fix true = .ok f' ∧ values f' = values f :=
+  Proofs.ModfileSrc.format_preserves_directives_src name x fix f h hN hwf hfix hne hret
+
+open Proofs.ModfileFmtDir Proofs.ModfileFmtWork Proofs.ModfileSrc in
+/-- ★ `format_preserves_directives_work_src` (go.work) — the same for `ParseWork`. -/
+theorem format_preserves_directives_work_src (name x : Bytes) (fix : Option Fixer) (f : WorkFile)
+    (h : parseWork name x fix = .ok f) (hN : NoMultiLineToken x) (hwf : WorkWellFormed f)
+    (hfix : FixOK fix) (hne : FixNE fix) :
+    ∃ f', parseWork name (format f.syn) fix = .ok f' ∧ workValues f' = workValues f :=
+  Proofs.ModfileSrc.format_preserves_directives_work_src name x fix f h hN hwf hfix hne
+
+/-- non-vacuity of `eolCount_of_single_line_tokens`, `format_parse_syntax_src`, `format_idempotent_src`: a file with
+    end-of-line comments on a top-level line, on block lines (`// indirect`), after `verb (`, after `)` and after a
+    one-line block, whole-line comments, a blank line in a block, quoted strings (with an escape, but no escaped
+    newline) and CRLF is accepted and satisfies `NoMultiLineToken` — and even the byte-level condition -/
+example :
+    let x := B "// doc\r\nmodule  \"example.com/m\" // c\n\nrequire ( // lp\n\ta.b/c v1.0.0 // indirect\n\n\t// why\n\t\"d.e/f\\x41\"   v1.2.3 // indirect\n\t// tail\n) // end\nx ( ) // e\n"
+    (∃ t, parse (B "go.mod") x = .ok t) ∧ Proofs.ModfileSrc.NoMultiLineToken x ∧
+      Proofs.ModfileSrc.NoBackslashNewline x := by
+  refine ⟨?_, by decide +kernel, by decide +kernel⟩
+  have h : (match parse (B "go.mod") (B "// doc\r\nmodule  \"example.com/m\" // c\n\nrequire ( // lp\n\ta.b/c v1.0.0 // indirect\n\n\t// why\n\t\"d.e/f\\x41\"   v1.2.3 // indirect\n\t// tail\n) // end\nx ( ) // e\n") with
+      | .ok _ => true
+      | .error _ => false) = true := by decide +kernel
+  cases hp : parse (B "go.mod") (B "// doc\r\nmodule  \"example.com/m\" // c\n\nrequire ( // lp\n\ta.b/c v1.0.0 // indirect\n\n\t// why\n\t\"d.e/f\\x41\"   v1.2.3 // indirect\n\t// tail\n) // end\nx ( ) // e\n") with
+  | ok t => exact ⟨t, rfl⟩
+  | error e => rw [hp] at h; cases h
+
+/-- the hypothesis is not vacuous in the other direction either: the two inputs on which `Format` is not
+    idempotent violate `NoMultiLineToken` (their quoted string `"p\⏎q"` spans two source lines) -/
+example :
+    ¬ Proofs.ModfileSrc.NoMultiLineToken (B "a b // c1\nx \"p\\\nq\" // c2\n") ∧
+    ¬ Proofs.ModfileSrc.NoMultiLineToken (B "// hello\n\nx \"a\\\nb\" // c1\n") := by
+  exact ⟨by decide +kernel, by decide +kernel⟩
+
+/-- `NoMultiLineToken` is weaker than the byte-level condition: a backslash at the end of a `//` comment is
+    harmless -/
+example :
+    let x := B "a b // c1 \\\nx y // c2\n"
+    Proofs.ModfileSrc.NoMultiLineToken x ∧ ¬ Proofs.ModfileSrc.NoBackslashNewline x := by
+  exact ⟨by decide +kernel, by decide +kernel⟩
+
+/-- non-vacuity of `format_preserves_directives_src` (go.mod, no fixer): a file with `// indirect` markers inside
+    a block and on a top-level line and other end-of-line comments is accepted as a well-formed file (indirect
+    flags `[true, false, true]`) and satisfies `NoMultiLineToken` -/
+example :
+    let x := B "module \"example.com/m\" // mod\ngo 1.21\nrequire (\n\t\"a.b/c\" v1 // indirect\n\td.e/f v1.2.3\n)\nrequire g.h/i v2.0.0+incompatible // indirect; why\nreplace a.b/c => \"./x y\" // r\n"
+    (match parseToFile (B "go.mod") x none true with
+     | .ok f => Proofs.ModfileFmtDir.wellFormedB f && decide (f.require.map (·.indirect) = [true, false, true])
+     | .error _ => false) = true ∧ Proofs.ModfileSrc.NoMultiLineToken x := by
+  exact ⟨by decide +kernel, by decide +kernel⟩
+
+/-- non-vacuity of `format_preserves_directives_work_src` (go.work) -/
+example :
+    let x := B "go 1.21 // g\nuse (\n\t\"./x y\" // first\n\t./z\n) // done\nreplace a.b/c v1.2 => \"../c\" // r\n"
+    (match parseWork (B "go.work") x none with
+     | .ok f => Proofs.ModfileFmtWork.workWellFormedB f
+     | .error _ => false) = true ∧ Proofs.ModfileSrc.NoMultiLineToken x := by
+  exact ⟨by decide +kernel, by decide +kernel⟩
 
 end ModVerif.Props.C02
